@@ -287,6 +287,25 @@ mod imp {
                     Result::Err(_) => "err".to_string(),
                 }
             }
+            // the provided trait method `Deserialize::deserialize_in_place` (default: deserialize + assign) on a
+            // target that already holds a value: the old contents must not influence the result
+            ("u.de_in_place", [old, w, h @ ..]) => {
+                let t = seq_tok(w, parse_hint(h)?)?;
+                let mut place = parse_u(old)?;
+                match <BigUint as Deserialize>::deserialize_in_place(De(&t), &mut place) {
+                    Ok(()) => ok_u(&place),
+                    Result::Err(_) => "err".to_string(),
+                }
+            }
+            ("i.de_in_place", [old, s, w, h @ ..]) => {
+                let sv: i64 = s.parse().ok()?;
+                let t = Tok::Seq(Some(2), vec![Tok::I(sv), seq_tok(w, parse_hint(h)?)?]);
+                let mut place = parse_i(old)?;
+                match <BigInt as Deserialize>::deserialize_in_place(De(&t), &mut place) {
+                    Ok(()) => ok_i(&place),
+                    Result::Err(_) => "err".to_string(),
+                }
+            }
             ("i.de", [s, w, h @ ..]) => {
                 let sv: i64 = s.parse().ok()?;
                 let t = Tok::Seq(Some(2), vec![Tok::I(sv), seq_tok(w, parse_hint(h)?)?]);
